@@ -4,6 +4,7 @@
 
 mod c03;
 mod c09;
+mod c11;
 mod corpus;
 mod engine;
 mod gen_filter;
@@ -38,6 +39,7 @@ fn engine_for(prop: &str, ctx: Ctx) -> Box<dyn Engine> {
     match prop {
         "C03" => Box::new(c03::C03 { ctx }),
         "C09" => Box::new(c09::C09 { ctx }),
+        "C11" => Box::new(c11::C11 { ctx }),
         other => {
             eprintln!("haysim: unknown property {other}");
             std::process::exit(2);
@@ -50,6 +52,7 @@ fn run_explicit(case: &Case, ctx: &Ctx) -> Outcome {
     match case.prop.as_str() {
         "C03" => c03::run_case(case),
         "C09" => c09::run_case(case, c09::load_namespace(ctx)),
+        "C11" => c11::run_case(case),
         other => {
             eprintln!("haysim: unknown property {other}");
             std::process::exit(2);
